@@ -388,6 +388,32 @@ def ob_retry_record_plain(ctx, num):
 LIST_MUTATORS = {"remove", "pop", "insert", "append", "extend", "clear", "sort", "reverse", "popleft", "appendleft"}
 
 
+def ob_wrapper_passes_through(ctx, num):
+    """Scheduler.run_one_tick is the only way a policy is reached: it calls the registered policy in every tick, with the tick's own results and
+    new pipelines as they were handed in (not held back, merged or reordered), and returns what the policy returns."""
+    P = ctx.P
+    rel = "eudoxia/scheduler/scheduler.py"
+    f = P.fn(rel, "Scheduler.run_one_tick")
+    ctx.touch(f)
+    g = cfg_of(f, subst_env=False)
+    ps = f.params()
+    calls = [c for c in own_nodes(f.node) if isinstance(c, ast.Call) and isinstance(c.func, ast.Attribute) and norm.is_name(c.func.value, ps[0]) and c.func.attr.endswith("func")
+             or (isinstance(c, ast.Call) and isinstance(c.func, ast.Attribute) and norm.is_name(c.func.value, ps[0]) and c.func.attr in ("algo_func", "scheduler_algo"))]
+    ok = len(calls) == 1 and len(ps) >= 3
+    d = f"policy calls: {[norm.U(c) for c in calls]}"
+    if ok:
+        c = calls[0]
+        args_ok = len(c.args) == 3 and norm.is_name(c.args[0], ps[0]) and norm.is_name(c.args[1], ps[1]) and norm.is_name(c.args[2], ps[2])
+        rebound = [n for n in own_nodes(f.node) if isinstance(n, ast.Name) and n.id in ps[1:3] and isinstance(n.ctx, (ast.Store, ast.Del))]
+        muts = [n for n in own_nodes(f.node) if isinstance(n, ast.Call) and isinstance(n.func, ast.Attribute) and isinstance(n.func.value, ast.Name) and n.func.value.id in ps[1:3]
+                and n.func.attr in LIST_MUTATORS]
+        byp = g.path_avoiding(g.entry.id, {g.exit.id}, {g.node_of(c).id})
+        ok = args_ok and not rebound and not muts and byp is None
+        d += f"; arguments are the parameters themselves: {args_ok}; parameters re-bound: {len(rebound)}, mutated: {len(muts)}; called on every path: {byp is None}"
+    ctx.ob(num, "K3", "the scheduler wrapper hands every tick's results and new pipelines to the policy as they came, in that tick", ok, f, calls[0] if calls else f.node,
+           construct="policy(self, results, pipelines) on every path", detail=d)
+
+
 def ob_inputs_not_mutated(ctx, num, key: str, label: str):
     """The two lists a scheduler is called with (this tick's results and new pipelines) belong to the main loop, which goes on using them
     after the call (`len(new_pipelines)` is the number of pipelines created in the tick): the scheduler, and the same-module functions it
